@@ -751,6 +751,10 @@ def fam_c17(R, n):
     SEPS = [', ', ', ', ',', ' ,', ' , ', ',\n    ']
     def join(ds):
         return ''.join(d + (R.choice(SEPS) if k_ + 1 < len(ds) else '') for k_, d in enumerate(ds))
+    # a definition whose generated code has more than one look-up table (round 29: constants emitted in another order by
+    # another process are another output; `--check` after a write has to succeed)
+    big = ['#[regex("%s+%s")] V%d,' % (c, chr(ord('A') + k), k) for k, c in enumerate(['[a-c]', '[d-f]', '[g-i]', '[j-l]', '[m-o]', '[p-r]', '[s-u]', '[v-x]', '[0-2]', '[3-5]', '[6-8]', '[!-#]'])]
+    out.append(dict(family='c17-luts', src='#[derive(Logos, Debug)]\npub enum Big {\n    %s\n}' % '\n    '.join(big), meta=dict()))
     for i in range(n):
         if i < len(fixed):
             dl = [fixed[i]]
@@ -857,6 +861,9 @@ def fam_c19(R, n_random):
               '#[regex("(")]', '#[regex("a", "b")]', '#[regex("a", foo, bar)]', '#[regex = "a"]', '#[regex("[")]', '#[regex("a{2,1}")]',
               '#[token("a", priority = x)]', '#[token("a", priority = -1)]', '#[token("a", priority = 99999999999999999999999)]',
               '#[token("a", callback = )]', '#[token("a", callback = |a, b| 1)]', '#[token("a", |lex|)]', '#[token("a", ||)]',
+              # (round 29) a brace group as the whole body of a closure can hold anything; a keyword as the parameter
+              '#[token("a", |lex| { lex.slice().len() + })]', '#[token("a", |lex| { let })]', '#[token("a", |lex| { = = })]', '#[token("a", |match| { 0; })]',
+              '#[token("a", callback = |lex| { let })]', '#[token("a", |lex| { ) })]', '#[regex("a+", |lex| { fn })]', '#[token("a", |lex| -> bool { true })]',
               '#[token("a", ignore())]', '#[token("a", ignore(case, ))]', '#[token("a", ignore(case case))]', '#[token("a", ignore(ascii_case))]',
               '#[token("a", ignore(wat))]', '#[token("a", ignore = case)]', '#[token("a", allow_greedy = maybe)]', '#[token(b"a\\xff")]',
               '#[token(\'a\')]', '#[token(1.5)]', '#[token(r#"a"#)]', '#[token(br"a")]', '#[error]', '#[token("a")] #[error]']:
